@@ -179,6 +179,16 @@ func c10History(cc *run.Case, kind string, nops, hidx int) bool {
 	}
 	lastDay := map[string]int{}
 	var hist []repoOp
+	// A name may contain a path separator ("BRK/B" next to "B"): the two are
+	// different assets for every repository. The file-system repository keeps
+	// the first below a directory, which has to exist.
+	if hidx%4 == 2 {
+		names = append(names, "hb", "grp/hb")
+		if base := reflectBase(repo); base != "" {
+			os.MkdirAll(filepath.Join(base, "grp"), 0o700)
+		}
+		hist = append(hist, repoOp{Op: "names hb and grp/hb (file system: directory grp exists)"})
+	}
 	fail := func(msg string) bool {
 		cc.Viol("", fmt.Sprintf("%s repository: %s", kind, msg), map[string]any{"repository": kind, "history": hist})
 		return false
@@ -209,7 +219,7 @@ func c10History(cc *run.Case, kind string, nops, hidx int) bool {
 			// copy: the stream returned by Get is handed to Append for a NEW asset
 			// while it is still unread (reader and writer of one repository are
 			// active at the same time), then both assets are read back
-			dst := fmt.Sprintf("copy%d-of-%s", step, strings.ReplaceAll(name, ".", "_"))
+			dst := fmt.Sprintf("copy%d-of-%s", step, strings.NewReplacer(".", "_", "/", "_").Replace(name))
 			hist = append(hist, repoOp{Op: "append(dst, get(src))", Name: dst + " <- " + name})
 			c, err := repo.Get(name)
 			if err != nil {
@@ -365,6 +375,9 @@ func c10History(cc *run.Case, kind string, nops, hidx int) bool {
 				}
 			}
 			for n, l := range model.data {
+				if strings.Contains(kind, "filesystem") && strings.Contains(n, "/") {
+					continue // listing names below a directory is not something the file-system repository documents
+				}
 				if len(l) > 0 && !have[n] {
 					sort.Strings(got)
 					return fail(fmt.Sprintf("Assets() = %v does not list %q, which holds %d snapshots", got, n, len(l)))
